@@ -10,6 +10,8 @@ import (
 
 	"github.com/apache/skywalking-banyandb/banyand/internal/sidx"
 	"github.com/apache/skywalking-banyandb/banyand/protector"
+	pbv1 "github.com/apache/skywalking-banyandb/pkg/pb/v1"
+	"github.com/apache/skywalking-banyandb/pkg/query/model"
 	vtrace "github.com/apache/skywalking-banyandb/pkg/query/vectorized/trace"
 )
 
@@ -68,4 +70,49 @@ func VerifC15Phase1(instances []sidx.SIDX, req sidx.QueryRequest, maxTraceSize, 
 		}
 	}
 	return push, pull
+}
+
+// VerifC15Column is one column of a decoded trace block: tag name, stored value type, and whether the stored column
+// name carries the "#<type>" suffix (written after the tag got a type in the schema) or is a legacy plain name.
+type VerifC15Column struct {
+	Name  string
+	Type  int
+	Typed bool
+}
+
+// VerifC15FindTag resolves the projected tag `name` (schema type `schemaType`, 0 = not in the schema) against the block
+// columns in the given order through the vectorized assembly's findBlockTag, and through the row path's
+// blockCursor.resolveTagProjection (the column name its projection ends up with). Returns the stored column names
+// ("nil" when nothing is chosen).
+func VerifC15FindTag(cols []VerifC15Column, name string, schemaType int) (vec string, row string) {
+	schema := map[string]pbv1.ValueType{}
+	if schemaType != 0 {
+		schema[name] = pbv1.ValueType(schemaType)
+	}
+	tags := make([]tag, 0, len(cols))
+	bc := &blockCursor{tagProjection: &model.TagProjection{Names: []string{name}}, schemaTagTypes: schema}
+	bc.bm.tags = map[string]*dataBlock{}
+	bc.bm.tagType = map[string]pbv1.ValueType{}
+	for _, c := range cols {
+		stored := c.Name
+		if c.Typed {
+			stored = encodeTypedTag(c.Name, pbv1.ValueType(c.Type))
+		}
+		tags = append(tags, tag{name: stored, valueType: pbv1.ValueType(c.Type), values: [][]byte{{1}}})
+		bc.bm.tags[stored] = &dataBlock{}
+		bc.bm.tagType[stored] = pbv1.ValueType(c.Type)
+	}
+	if t := findBlockTag(tags, name, schema); t != nil {
+		vec = t.name
+	} else {
+		vec = "nil"
+	}
+	bc.resolveTagProjection()
+	row = "nil"
+	if bc.bm.tagProjection != nil && len(bc.bm.tagProjection.Names) == 1 {
+		if _, ok := bc.bm.tags[bc.bm.tagProjection.Names[0]]; ok {
+			row = bc.bm.tagProjection.Names[0]
+		}
+	}
+	return vec, row
 }
